@@ -1,6 +1,6 @@
 (* C09 — boosts are Lorentz transformations with the documented relations.  Statements only. *)
 From Coq Require Import Reals.
-From VP Require Import Lib RLib Spec Compute Tables C09_boost C09_boost2.
+From VP Require Import Lib RLib Spec Compute Tables C09_boost C09_boost2 C09_boost3.
 From VP Require ObjModel ObjNames NbModel NbApi NbChecks.
 Import ObjNames List.ListNotations.
 Open Scope R_scope.
@@ -25,6 +25,26 @@ Proof.
   - apply boost_p4_square_partial.
   - apply boostX_beta_square.  - apply boostY_beta_square.  - apply boostZ_beta_square.
   - apply boostX_gamma_square. - apply boostY_gamma_square. - apply boostZ_gamma_square.
+Qed.
+
+(* boost_p4: every storage of the boosted vector AND of the booster (144 signatures) reduces to the Cartesian variant *)
+Theorem C09_boost_p4_all_signatures : forall s l t s2 l2 t2 a b c d a2 b2 c2 d2, canon_az s2 a2 b2 -> canon_lg l2 c2 ->
+  den4 (T_lorentz_boost_p4 s l t s2 l2 t2 a b c d a2 b2 c2 d2)
+  = den4 (T_lorentz_boost_p4 XY LZ t XY LZ t2 (sx s a b) (sy s a b) (sz s l a b c) d (sx s2 a2 b2) (sy s2 a2 b2) (sz s2 l2 a2 b2 c2) d2).
+Proof. exact boost_p4_square. Qed.
+
+(* the axis boosts of tau-stored vectors (beta and gamma spellings), every storage of the spatial part *)
+Theorem C09_axis_boosts_tau_storage_signatures : forall s l k a b c d, canon_az s a b -> canon_lg l c ->
+  den4 (T_lorentz_boostX_beta s l TTau k a b c d) = den4 (T_lorentz_boostX_beta XY LZ TTau k (sx s a b) (sy s a b) (sz s l a b c) d) /\
+  den4 (T_lorentz_boostY_beta s l TTau k a b c d) = den4 (T_lorentz_boostY_beta XY LZ TTau k (sx s a b) (sy s a b) (sz s l a b c) d) /\
+  den4 (T_lorentz_boostZ_beta s l TTau k a b c d) = den4 (T_lorentz_boostZ_beta XY LZ TTau k (sx s a b) (sy s a b) (sz s l a b c) d) /\
+  den4 (T_lorentz_boostX_gamma s l TTau k a b c d) = den4 (T_lorentz_boostX_gamma XY LZ TTau k (sx s a b) (sy s a b) (sz s l a b c) d) /\
+  den4 (T_lorentz_boostY_gamma s l TTau k a b c d) = den4 (T_lorentz_boostY_gamma XY LZ TTau k (sx s a b) (sy s a b) (sz s l a b c) d) /\
+  den4 (T_lorentz_boostZ_gamma s l TTau k a b c d) = den4 (T_lorentz_boostZ_gamma XY LZ TTau k (sx s a b) (sy s a b) (sz s l a b c) d).
+Proof.
+  intros s l k a b c d Ha Hl.
+  exact (conj (boostX_beta_tau_square s l k a b c d Ha Hl) (conj (boostY_beta_tau_square s l k a b c d Ha Hl) (conj (boostZ_beta_tau_square s l k a b c d Ha Hl)
+    (conj (boostX_gamma_tau_square s l k a b c d Ha Hl) (conj (boostY_gamma_tau_square s l k a b c d Ha Hl) (boostZ_gamma_tau_square s l k a b c d Ha Hl)))))).
 Qed.
 
 (* the Cartesian variant is the textbook active boost matrix ... *)
